@@ -93,7 +93,13 @@ def run_profile(ctx, profile, n_t, n_p, maxcoef, modes=("shipped",), line_checke
                 if i != m.strip():
                     st["bit_mismatch"] += 1; ctx.tie_ok = False
                     if len(ctx.broken) < 5: ctx.broken.append({"kind": "correspondence: gradient lanes bits != model", "case": c[:300], "impl": i, "model": m, "table": table})
+            elif k == "U":
+                # another entry point at the point of the preceding V line: same exact value, same model bits
+                if st.get("_lastV") and st["_lastV"][0].split()[1:] == c.split()[1:]:
+                    line_checker(ctx, table, "V" + c[1:], i, m.split()[0] + " " + " ".join(st["_lastV"][1].split()[1:]), n, st)
+                    st["other_entry_points"] = st.get("other_entry_points", 0) + 1
             elif k in "VD":
+                if k == "V": st["_lastV"] = (c, m)
                 line_checker(ctx, table, c, i, m, n, st)
                 if len(ctx.coverage["samples"]) < 4:
                     ctx.coverage["samples"].append({"case": c[:300], "impl_bits": i, "model": m[:200], "orders": [d["order"] for d in table["dims"]]})
